@@ -19,13 +19,13 @@ type solverSpec struct {
 
 var solvers = []solverSpec{
 	{"z3-new", func(f string, t time.Duration, seed int) []string {
-		return []string{"z3-new", "-smt2", fmt.Sprintf("-T:%d", int(t.Seconds())+1), fmt.Sprintf("smt.random_seed=%d", seed), fmt.Sprintf("sat.random_seed=%d", seed), f}
+		return []string{"z3-new", "-smt2", fmt.Sprintf("-T:%d", int(t.Seconds())+1), fmt.Sprintf("smt.random_seed=%d", seed), fmt.Sprintf("sat.random_seed=%d", seed), "smt.array.extensional=false", f}
 	}},
 	{"cvc5", func(f string, t time.Duration, seed int) []string {
 		return []string{"cvc5", "--lang=smt2", fmt.Sprintf("--tlimit=%d", t.Milliseconds()), fmt.Sprintf("--seed=%d", seed), f}
 	}},
 	{"z3", func(f string, t time.Duration, seed int) []string {
-		return []string{"z3", "-smt2", fmt.Sprintf("-T:%d", int(t.Seconds())+1), fmt.Sprintf("smt.random_seed=%d", seed), f}
+		return []string{"z3", "-smt2", fmt.Sprintf("-T:%d", int(t.Seconds())+1), fmt.Sprintf("smt.random_seed=%d", seed), "smt.array.extensional=false", f}
 	}},
 }
 
